@@ -38,7 +38,7 @@ def table_rule(ctx, key, path, atoms, spec, abbr=(), outcome=None, skip=None):
     return check_table(key, b, w.paths_split, atoms, spec, outcome or (lambda p: ret(p, abbr)), abbr, skip)
 
 
-@rule("LEAF-BOL", ["C12", "C01"], floor=2)
+@rule("LEAF-BOL", ["C12", "C01", "C16"], floor=2)
 def leaf_bol(ctx):
     """'^' yields once(position) iff position==0 or (m and search[position-1]==LF and position<len), else nothing."""
     atoms = {"at0": "eq(a3, 0)", "m": ML, "after_nl": "ReMatcher::is_new_line(a2, sub(a3, 1))", "inside": INB}
@@ -49,7 +49,7 @@ def leaf_bol(ctx):
     return table_rule(ctx, "Bol", BOL, atoms, spec)
 
 
-@rule("LEAF-EOL", ["C12", "C01"], floor=2)
+@rule("LEAF-EOL", ["C12", "C01", "C16"], floor=2)
 def leaf_eol(ctx):
     """'$' yields once(position) iff the input is empty, position>=len, or (m and search[position]==LF)."""
     atoms = {"empty": "eq(0, len(a2.search))", "inside": INB, "m": ML, "at_nl": "ReMatcher::is_new_line(a2, a3)"}
@@ -106,13 +106,13 @@ def class_membership(ctx):
     return table_rule(ctx, "CharClass", CHARCLASS, atoms, spec)
 
 
-@rule("LEAF-NOTHING", ["C12", "C20"], floor=1)
+@rule("LEAF-NOTHING", ["C12", "C20", "C01"], floor=1)
 def leaf_nothing(ctx):
     """Nothing yields exactly once(position)."""
     return table_rule(ctx, "Nothing", NOTHING, {}, lambda v: "once(a3)")
 
 
-@rule("LEAF-ENDPROGRAM", ["C01", "C02"], floor=2)
+@rule("LEAF-ENDPROGRAM", ["C01", "C02", "C16", "C04"], floor=2)
 def leaf_end(ctx):
     """EndProgram succeeds at position unless the match is anchored and position<len."""
     atoms = {"anchored": "ReMatcher::anchored_match(a2)", "inside": INB}
@@ -185,7 +185,12 @@ def literal_atom(ctx):
                 _rec(d, "loop|driver", False, "a loop of Atom::matches_iter is not driven by the characters of the atom (guards %s)" % gs[:2], loc)
                 continue
             seq = m.group(1)
-            okseq = seq == "0..len(a1.atom)" or seq in ("min(a2.search[a3..add(a3, a1.len)]; 0..len(a1.atom))", "min(0..len(a1.atom); a2.search[a3..add(a3, a1.len)])", "0..a1.len")
+            # zipped with the input from the position on: the length test that every path through here has passed
+            # (length-test-first) leaves at least len characters there, so the shorter side is the atom
+            okseq = seq == "0..len(a1.atom)" or seq in ("min(a2.search[a3..add(a3, a1.len)]; 0..len(a1.atom))", "min(0..len(a1.atom); a2.search[a3..add(a3, a1.len)])", "0..a1.len", "min(0..len(a1.atom); 0..len(a2.search) skip a3)", "min(0..len(a2.search) skip a3; 0..len(a1.atom))")
+            if "skip a3" in seq:
+                hgs = {strip_ver(g) for g in guard_strings(b, h, se)}
+                okseq = okseq and any(("!" + s_) in hgs for s_ in SHORT)
             _rec(d, "loop|runs-over-the-atom", okseq, "the comparison must run over every character of the atom from the first; it runs over %s" % seq, loc)
             if side is None:
                 _rec(d, "loop|flag-side", False, "a comparison loop that is not on one side of the flag-i test", loc)
